@@ -1,65 +1,11 @@
 import TexSoupProofs.Sound.Item
 import TexSoupProofs.Reader.HypCheck
+import TexSoupProofs.Sound.PeekGroup
 /-!
 # Soundness, part 6: environment bodies and `read_env`
 -/
 namespace TexSoup.Gram
 open TexSoup
-
-theorem special_open : ∀ n, memStr n Tables.specialCommands = true → cmdSig (-1) (-1) n = (-1, -1) := by
-  have key : ∀ n ∈ Tables.specialCommands, cmdSig (-1) (-1) n = (-1, -1) := by decide
-  intro n hn
-  exact key n (memStr_mem hn)
-
-/-- what follows when the next element (after at most one spacer leaf) is a free group -/
-theorem nextGroup_afterSp {skip : List Str} {m : Mode} {ctx : Ctx} {nx : List Tok} {b : List Elem}
-    {bb : List Elem} {c : Tok} (hw : WFs skip m ctx nx b = true) (hg : nextGroup b = some (bb, c))
-    (X : List Tok) :
-    hdCat (afterSp (toksS b ++ X)) = some .GroupBegin ∧
-    WFs [] .nonMath (.grp .brace) [c] bb = true ∧ startsWithGroup (trees b) = true := by
-  rcases nextGroup_some hg with ⟨o, tl, rfl⟩ | ⟨s, o, tl, rfl, hs⟩
-  · obtain ⟨h1, _, _, _⟩ := WFs_cons hw
-    simp only [WF, Bool.and_eq_true, beq_iff_eq] at h1
-    refine ⟨?_, h1.2, by simp [tree, startsWithGroup]⟩
-    simp only [toksS_cons, toks, List.cons_append]
-    rw [afterSp_cons_ne _ (by rw [h1.1.1]; decide)]
-    simp [hdCat, h1.1.1]
-  · obtain ⟨_, _, h3, _⟩ := WFs_cons hw
-    obtain ⟨h1, _, _, _⟩ := WFs_cons h3
-    simp only [WF, Bool.and_eq_true, beq_iff_eq] at h1
-    refine ⟨?_, h1.2, by simp [tree, startsWithGroup]⟩
-    simp only [toksS_cons, toks, List.cons_append, List.nil_append]
-    rw [afterSp_cons_sp _ hs]
-    simp [hdCat, h1.1.1]
-
-/-- the look-ahead condition of `WFs`, from what the tree and the frame condition say -/
-theorem peekCond_of_rep {skip : List Str} {mode : Mode} {nx : List Tok} {el : Elem} {b : List Elem}
-    {X : List Tok} (hmode : mode ≠ .special)
-    (hwf : WF skip mode (win (toksS b ++ X)) el = true) (hwb : WFs skip mode .env nx b = true)
-    (hpf : mode = .math → peekFreeL (tree el :: trees b) = true) :
-    peekCond mode .env el b = true := by
-  rw [peekCond_iff]
-  intro _ nm hna bb c hng
-  obtain ⟨hgb, hwbb, hsg⟩ := nextGroup_afterSp hwb hng X
-  obtain ⟨esc, name, a3, a4, rfl, rfl⟩ := noArgName_some hna
-  simp only [WF, Bool.and_eq_true] at hwf
-  have hrun := hwf.2
-  rw [runOK_win] at hrun
-  obtain ⟨rfl, rfl⟩ := runOK_noargs hrun
-  by_cases hsp : memStr name.text Tables.specialCommands = true
-  · exfalso
-    have := runOK_noargs_open (by rw [special_open _ hsp]; decide) hrun
-    rw [hgb] at this
-    simp at this
-  · have hcm : cmdMode name.text mode = mode := by unfold cmdMode; rw [if_neg hsp]
-    rw [hcm]
-    cases mode with
-    | special => exact absurd rfl hmode
-    | nonMath => exact hwbb
-    | math =>
-      exfalso
-      have := hpf rfl
-      simp [peekFreeL, tree, isNoArgCmd, hsg] at this
 
 theorem trees_single_text {bb : List Elem} {s : Str} {p : Int} (h : trees bb = [.text s p]) :
     ∃ t, bb = [.leaf t] ∧ t.text = s := by
@@ -83,11 +29,11 @@ include ih
 theorem sd_readEnvBody : ∀ skip mode ts es ea rest,
     readEnvBody (f+1) skip false mode ts = .ok ((es, ea), rest) →
     SHyp skip0 ts → SkipSub skip skip0 → mode ≠ .special → repL mode es = true →
-    (mode = .math → peekFreeL es = true) →
     ∃ b, toksS b ++ rest = ts ∧ trees b = es ∧ WFs skip mode .env (win rest) b = true ∧
       (∀ eargs, ea = some eargs → ∃ esc n r g rest', rest = esc :: n :: r ∧ esc.cat = .Escape ∧
         n.text = sEnd ∧ readCommand g 1 0 false mode (n :: r) = .ok ((n, eargs), rest')) := by
-  intro skip mode ts es ea rest h hy hsub hmode hrep hpf
+  intro skip mode ts es ea rest h hy hsub hmode hrep
+  have ih0 := ih
   obtain ⟨hE, -, -, -, -, hEB, -, -, -, -, -, -⟩ := ih
   unfold readEnvBody at h
   cases ts with
@@ -101,7 +47,8 @@ theorem sd_readEnvBody : ∀ skip mode ts es ea rest,
         (readEnvBody f skip false mode ts1).bind fun be ts2 => Except.ok ((e :: be.1, be.2), ts2)) =
           .ok ((es, ea), rest) →
         (∀ el : Elem, ∀ rest' : List Tok, WF skip mode (win rest') el = true → toks el ++ rest' = t :: r →
-          nameText el ≠ some sEnd) →
+          nameText el ≠ some sEnd ∧
+          (noArgName el ≠ none → ∃ na ts', readCommand f 1 0 false mode r = .ok (na, ts'))) →
         ∃ b, toksS b ++ rest = t :: r ∧ trees b = es ∧ WFs skip mode .env (win rest) b = true ∧
           (∀ eargs, ea = some eargs → ∃ esc n r g rest', rest = esc :: n :: r ∧ esc.cat = .Escape ∧
             n.text = sEnd ∧ readCommand g 1 0 false mode (n :: r) = .ok ((n, eargs), rest')) := by
@@ -113,22 +60,17 @@ theorem sd_readEnvBody : ∀ skip mode ts es ea rest,
       obtain ⟨hr1, hr2⟩ := repL_cons.1 hrep
       obtain ⟨el, htk, htr, hwf⟩ := hE skip mode _ e ts1 he hy hsub hr1
       obtain ⟨b, htk2, htr2, hwfs, hlast⟩ := hEB skip mode ts1 be.1 be.2 ts2 hb
-        (hy.ofSuf (readExpr_ssuf he).suf) hsub hmode hr2 (by
-          intro hm
-          have := hpf hm
-          simp only [peekFreeL, Bool.and_eq_true] at this
-          exact this.2)
-      refine ⟨el :: b, ?_, by simp [htr, htr2], ?_, hlast⟩
+        (hy.ofSuf (readExpr_ssuf he).suf) hsub hmode hr2
+      have hwf' : WF skip mode (win (toksS b ++ ts2)) el = true := by rw [htk2]; exact hwf
+      obtain ⟨hnm, hpk⟩ := hname el ts1 hwf htk
+      obtain ⟨b', e1, e2, hwfs', hpc⟩ := peekCond_of_peek skip0 f ih0 hmode hwf' hwfs
+        (by rw [htk2]; exact htk) hy (by rw [htr2]; exact hr2) hpk
+      refine ⟨el :: b', ?_, by simp [htr, htr2, e2], ?_, hlast⟩
       · simp only [toksS_cons, List.append_assoc]
-        rw [htk2, htk]
-      · have hwf' : WF skip mode (win (toksS b ++ ts2)) el = true := by rw [htk2]; exact hwf
-        refine WFs_cons_intro ?_ ?_ hwfs ?_
-        · rw [← win_append]; exact hwf'
-        · have := hname el ts1 hwf htk
-          simpa [startOK] using this
-        · exact peekCond_of_rep hmode hwf' hwfs (by
-            intro hm
-            rw [htr, htr2]; exact hpf hm)
+        rw [e1, htk2, htk]
+      · refine WFs_cons_intro ?_ ?_ hwfs' hpc
+        · rw [e1, ← win_append]; exact hwf'
+        · simpa [startOK] using hnm
     by_cases hesc : (t.cat == TC.Escape) = true
     · rw [if_pos hesc] at h
       have hE' : t.cat = .Escape := by simpa using hesc
@@ -154,6 +96,7 @@ theorem sd_readEnvBody : ∀ skip mode ts es ea rest,
       · rw [if_neg hend] at h
         refine step h ?_
         intro el rest' hwf htk
+        refine ⟨?_, fun _ => ⟨na, ts', hc⟩⟩
         obtain ⟨n, r', hr, hnt⟩ := nameText_of_toks hwf htk hE'
         subst hr
         have hn := readCommand_head hc
@@ -165,12 +108,15 @@ theorem sd_readEnvBody : ∀ skip mode ts es ea rest,
       refine step h ?_
       intro el rest' hwf htk
       have : nameText el = none := nameText_none hwf (by rw [firstTok_of_toks htk]; simpa using hesc)
-      rw [this]; simp
+      refine ⟨by rw [this]; simp, ?_⟩
+      intro hne
+      exfalso
+      cases el <;> simp [noArgName, nameText] at hne this
 
 theorem sd_readEnv : ∀ name args pos skip mode ts e rest,
     readEnv (f+1) name args pos skip false mode ts = .ok (e, rest) →
     SHyp skip0 ts → SkipSub skip skip0 → mode ≠ .special →
-    (∀ body, e = .nenv name args body pos → repL mode body = true ∧ (mode = .math → peekFreeL body = true)) →
+    (∀ body, e = .nenv name args body pos → repL mode body = true) →
     ∃ (b : List Elem) (esc2 en : Tok) (nm2 : NameArg),
       toksS b ++ esc2 :: en :: (nm2.toks ++ rest) = ts ∧ e = .nenv name args (trees b) pos ∧
       WFs skip mode .env [esc2, en] b = true ∧ esc2.cat = .Escape ∧ en.text = sEnd ∧ nm2.ok = true ∧
@@ -189,8 +135,8 @@ theorem sd_readEnv : ∀ name args pos skip mode ts e rest,
       obtain ⟨na2, ts2, hc2, h⟩ := Res.bind_eq_ok.mp h
       simp only [Except.ok.injEq, Prod.mk.injEq] at h
       obtain ⟨rfl, rfl⟩ := h
-      obtain ⟨hrb, hpf⟩ := hrep body rfl
-      obtain ⟨b, htk, htr, hwfs, hlast⟩ := hEB skip mode ts body ea (t0 :: r0) hb hy hsub hmode hrb hpf
+      have hrb := hrep body rfl
+      obtain ⟨b, htk, htr, hwfs, hlast⟩ := hEB skip mode ts body ea (t0 :: r0) hb hy hsub hmode hrb
       obtain ⟨a0, as, hea, hname⟩ := envError_false (by simpa using herr)
       obtain ⟨esc, n, r', g, rest', hts1, hescc, hnend, hcg⟩ := hlast (a0 :: as) hea
       simp only [List.cons.injEq] at hts1
